@@ -21,7 +21,9 @@ error is raised exactly when the opt-in is off; copy_records forwards the record
 unchanged as explicit values. Not decided: record-for-record equality for all legacy images.
 """
 DECIDED = ['the read-only scan masks journaled extents with a cursor over a journal sorted by start sector', 'no failing exit after the destination name is published', "read-only source cannot be written", "destination never overwritten; publish by hard_link after verify", "rollback on failure",
-           "ambiguous legacy markers need the opt-in", "timestamp / expiry forwarded unchanged"]
+           "ambiguous legacy markers need the opt-in", "timestamp / expiry forwarded unchanged",
+           'the destination name is unlinked only by the guard that linked it (rollback only after its own hard_link succeeded)',
+           'record batches resume strictly after the last key of the previous batch']
 NOT_DECIDED = ["record-for-record equality with a recovery of the source for all legacy images"]
 ASSUMPTIONS = ["fs::hard_link fails if the destination name exists (POSIX link(2))"]
 BIN = True
